@@ -24,6 +24,13 @@ int main(int argc, char **argv) {
     in = &f;
   }
   std::ios::sync_with_stdio(false);
+  // The library logs some rejections with printf (DRACO_LOGE): a log line must never shift the line protocol.
+  // The protocol goes to a private copy of stdout; whatever else is written to fd 1 ends up on stderr.
+  fflush(stdout);
+  const int proto_fd = dup(1);
+  dup2(2, 1);
+  FILE *proto = fdopen(proto_fd, "w");
+  if (!proto) return 2;
   std::string line;
   // C19: VH_THREADS=N runs the operations concurrently on N threads (thread t executes the
   // lines i with i % N == t, start-aligned, with random yields); output is printed in input order.
@@ -61,7 +68,11 @@ int main(int argc, char **argv) {
     }
     go.store(true);
     for (auto &t : th) t.join();
-    for (auto &o : outs) std::cout << o << "\n";
+    for (auto &o : outs) {
+      fputs(o.c_str(), proto);
+      fputc('\n', proto);
+    }
+    fflush(proto);
     return 0;
   }
   long n = 0;
@@ -72,12 +83,12 @@ int main(int argc, char **argv) {
     std::string t;
     while (ss >> t) a.push_back(t);
     if (a.empty()) {
-      std::cout << "\n";
+      fputs("\n", proto);
       continue;
     }
     auto it = vh::registry().find(a[0]);
     if (it == vh::registry().end()) {
-      std::cout << "bad-op\n";
+      fputs("bad-op\n", proto);
       continue;
     }
     // progress marker for crash attribution (stderr, unbuffered)
@@ -86,9 +97,11 @@ int main(int argc, char **argv) {
     // killed by SIGALRM and attributed to its line by the caller; VH_LINE_TIMEOUT seconds, 0 = off
     static const unsigned line_timeout = getenv("VH_LINE_TIMEOUT") ? atoi(getenv("VH_LINE_TIMEOUT")) : 300;
     if (line_timeout) alarm(line_timeout);
-    std::cout << it->second(a) << "\n";
+    const std::string out = it->second(a);
     if (line_timeout) alarm(0);
-    std::cout.flush();
+    fputs(out.c_str(), proto);
+    fputc('\n', proto);
+    fflush(proto);
   }
   return 0;
 }
